@@ -245,3 +245,19 @@ def check(ctx, run):  # noqa: F811
     from ..primaries import primary_classes
     ctor_rule(ctx, run, "C13.R6", primary_classes(ctx.prog), {"dt"}, "the step size simulate() and time_to_maturity read (self.dt) is not the one the instrument was created with")
     ctor_rule(ctx, run, "C13.R6", ["pfhedge.instruments.derivative." + c for c in ("european.EuropeanOption", "lookback.LookbackOption", "european_binary.EuropeanBinaryOption", "american_binary.AmericanBinaryOption", "cliquet.EuropeanForwardStartOption", "variance_swap.VarianceSwap")], {"maturity", "underlier"}, "the maturity / underlier the grid is built from is not the one the derivative was created with")
+    from ..primaries import init_forwarding_rule
+    init_forwarding_rule(ctx, run, "C13.R1i")
+    from ..registry import histories_rule
+    histories_rule(ctx, run, "C13.R7", only=("rebind", "re-register", "second"))
+    # R8: a coefficient that depends on calendar time is evaluated on the grid of the prices (t_i = i dt)
+    from . import c10 as _c10
+    from .. import entrypoints as _E
+    q_ = _c10.S + "local_volatility.generate_local_volatility_process"
+    for q, fi, kw in _E.generator_runs(ctx):
+        if q == q_:
+            try:
+                res_ = ctx.interp.explore(fi, [], kw, max_paths=200)
+            except Unsupported as ex:
+                raise AnalysisError(f"{q}: {ex}")
+            _c10.moments_local_vol(ctx, run, res_, rule="C13.R8", grid_only=True)
+    run.require("C13.R8", 1)
